@@ -11,7 +11,7 @@ pub fn vstr_as_bytes(s: &String) -> (r: &[u8])
 /// str::len() (length in bytes)
 #[verifier::external_body]
 pub fn vstr_len(s: &str) -> (r: usize)
-    ensures r == str_bytes(s@).len(),
+    ensures r == str_bytes(s@).len(), r <= isize::MAX as usize,  // (no Rust object is larger than isize::MAX bytes)
 { s.len() }
 
 /// str::to_string
